@@ -256,8 +256,8 @@ class Host:
     def dumpconf(self):
         return self.cmd("DUMPCONF")
 
-    def audit(self, cid=None):
-        return self.cmd("AUDIT" if cid is None else "AUDIT %d" % cid)
+    def audit(self, cids=None):
+        return self.cmd("AUDIT" if not cids else "AUDIT %s" % ",".join(str(c) for c in list(cids)[:200]))
 
     def counters(self):
         return self.cmd("COUNTERS")
